@@ -19,6 +19,7 @@ import (
 	"encoding/json"
 	"errors"
 	"fmt"
+	"os"
 	"runtime"
 	"sort"
 	"strconv"
@@ -38,7 +39,63 @@ import (
 	"verif/pkg/starve"
 )
 
-func TestMain(m *testing.M) { ev.Main(m) }
+func TestMain(m *testing.M) {
+	// diagnostics only: when did the client's dispatcher look up a handler?
+	uasc.VerifSetPointFunc(func(name string) {
+		if name == "dispatcher.afterPopHandler" {
+			popMu.Lock()
+			if len(pops) < 4096 {
+				pops = append(pops, time.Now())
+			}
+			popMu.Unlock()
+		}
+	})
+	ev.Main(m)
+}
+
+var (
+	popMu sync.Mutex
+	pops  []time.Time
+)
+
+// dispatcherTimeline describes the dispatcher activity since t0 (diagnostics
+// for timing failures: was the dispatcher idle, i.e. nothing arrived, or busy?).
+func dispatcherTimeline(t0 time.Time) string {
+	popMu.Lock()
+	defer popMu.Unlock()
+	var b strings.Builder
+	n := 0
+	var prev time.Time
+	var maxGap time.Duration
+	var gapAt time.Duration
+	for _, p := range pops {
+		if p.Before(t0) {
+			continue
+		}
+		if n > 0 && p.Sub(prev) > maxGap {
+			maxGap, gapAt = p.Sub(prev), prev.Sub(t0)
+		}
+		prev = p
+		n++
+	}
+	fmt.Fprintf(&b, "client dispatcher handled %d messages since the start of the run", n)
+	if n > 1 {
+		fmt.Fprintf(&b, ", longest pause %v beginning %v after the start, last message %v after the start", maxGap.Round(time.Millisecond), gapAt.Round(time.Millisecond), prev.Sub(t0).Round(time.Millisecond))
+	}
+	b.WriteString("; handled at ms:")
+	k := 0
+	for _, p := range pops {
+		if p.Before(t0) {
+			continue
+		}
+		if k++; k > 80 {
+			b.WriteString(" ...")
+			break
+		}
+		fmt.Fprintf(&b, " %d", p.Sub(t0).Milliseconds())
+	}
+	return b.String()
+}
 
 var rec = ev.For("C18", "rapid-drawn histories: 2-32 concurrent callers x 1-2(3) sequential Read/Browse/Write requests with unique markers over one client channel (opcua.Client with request id seed 0 or RandomRequestID, or raw uasc channel with RequestIDSeed 0 / random / next to the 2^32 wrap) against a scripted server whose per-request behaviour is drawn before the run (ok / duplicate / drop / late / ServiceFault / bad service result / other response type; delay 0-100 ms; after k other responses; optional unsolicited response with an unused request id that collides in the low 16 bits, in bit 31, with 0 or with an already answered id); non-trivial = at least 4 callers and (realised response order differs from arrival order or a drop / duplicate / mistyped response occurred); distinct by hash of the case")
 
@@ -170,8 +227,9 @@ const starvedLimit = 40 * time.Millisecond
 type sentRec struct {
 	J      int // request index (marker) the response claims to answer
 	Serial int
-	Kind   string // resp | dup | unsol
-	At     time.Time
+	Kind   string    // resp | dup | unsol
+	At     time.Time // when the response was built
+	Done   time.Time // when the server's send returned without error (zero: not sent)
 	ReqID  uint32
 }
 
@@ -251,6 +309,20 @@ func (w *world) build(conn *script.Conn, req ua.Request, kind string, status ua.
 	return resp
 }
 
+// respond puts a response built by build on the wire and notes when that was done.
+func (w *world) respond(conn *script.Conn, reqID uint32, resp ua.Response) {
+	err := conn.Respond(reqID, resp)
+	now := time.Now()
+	serial, _ := strconv.Atoi(resp.Header().StringTable[2])
+	w.mu.Lock()
+	defer w.mu.Unlock()
+	for i := range w.sent {
+		if w.sent[i].Serial == serial && err == nil {
+			w.sent[i].Done = now
+		}
+	}
+}
+
 func (w *world) sentCount() int {
 	w.mu.Lock()
 	defer w.mu.Unlock()
@@ -314,7 +386,7 @@ func (w *world) handle(conn *script.Conn, req ua.Request, reqID uint32) bool {
 				}
 				w.mu.Unlock()
 			}
-			_ = conn.Respond(id, w.build(conn, req, r.Kind, ua.StatusOK, j, "unsol", id))
+			w.respond(conn, id, w.build(conn, req, r.Kind, ua.StatusOK, j, "unsol", id))
 		}
 		// half of the unsolicited responses go out before the real one
 		if j%2 == 0 {
@@ -322,17 +394,17 @@ func (w *world) handle(conn *script.Conn, req ua.Request, reqID uint32) bool {
 		}
 		switch r.Action {
 		case "ok", "late":
-			_ = conn.Respond(reqID, w.build(conn, req, r.Kind, ua.StatusOK, j, "resp", reqID))
+			w.respond(conn, reqID, w.build(conn, req, r.Kind, ua.StatusOK, j, "resp", reqID))
 		case "dup":
-			_ = conn.Respond(reqID, w.build(conn, req, r.Kind, ua.StatusOK, j, "resp", reqID))
-			_ = conn.Respond(reqID, w.build(conn, req, r.Kind, ua.StatusOK, j, "dup", reqID))
+			w.respond(conn, reqID, w.build(conn, req, r.Kind, ua.StatusOK, j, "resp", reqID))
+			w.respond(conn, reqID, w.build(conn, req, r.Kind, ua.StatusOK, j, "dup", reqID))
 		case "drop":
 		case "fault":
-			_ = conn.Respond(reqID, w.build(conn, req, "fault", ua.StatusCode(r.Status), j, "resp", reqID))
+			w.respond(conn, reqID, w.build(conn, req, "fault", ua.StatusCode(r.Status), j, "resp", reqID))
 		case "badstatus":
-			_ = conn.Respond(reqID, w.build(conn, req, r.Kind, ua.StatusCode(r.Status), j, "resp", reqID))
+			w.respond(conn, reqID, w.build(conn, req, r.Kind, ua.StatusCode(r.Status), j, "resp", reqID))
 		case "mistype":
-			_ = conn.Respond(reqID, w.build(conn, req, r.As, ua.StatusOK, j, "resp", reqID))
+			w.respond(conn, reqID, w.build(conn, req, r.As, ua.StatusOK, j, "resp", reqID))
 		}
 		if r.Action != "drop" {
 			w.mu.Lock()
@@ -638,6 +710,10 @@ func execute(c Case) (o outcome) {
 		}(chain)
 	}
 	hb := starve.Begin()
+	popMu.Lock()
+	pops = pops[:0]
+	popMu.Unlock()
+	runStart := time.Now()
 	close(startGate)
 	wg.Wait()
 	o.Starved = hb.Settle()
@@ -726,9 +802,9 @@ func execute(c Case) (o outcome) {
 	firstSent := map[int]time.Time{}
 	for _, s := range sent {
 		kindOf[s.Serial] = s
-		if s.Kind == "resp" {
+		if s.Kind == "resp" && !s.Done.IsZero() {
 			if _, ok := firstSent[s.J]; !ok {
-				firstSent[s.J] = s.At
+				firstSent[s.J] = s.Done
 			}
 		}
 	}
@@ -799,7 +875,7 @@ func execute(c Case) (o outcome) {
 		switch q.Action {
 		case "ok", "dup":
 			if r.Err != nil {
-				liveness = append(liveness, fmt.Sprintf("request %d (%s/%s): its response (sent %v after the call started, timeout %v) did not reach the caller: %v", j, q.Kind, q.Action, fs.Sub(r.Start).Round(time.Millisecond), T, r.Err))
+				liveness = append(liveness, fmt.Sprintf("request %d (%s/%s): its response (sent %v after the call started, timeout %v) did not reach the caller, which returned after %v: %v", j, q.Kind, q.Action, fs.Sub(r.Start).Round(time.Millisecond), T, r.End.Sub(r.Start).Round(time.Millisecond), r.Err))
 			}
 		case "fault", "badstatus":
 			if r.Err != nil && !errors.Is(r.Err, ua.StatusCode(q.Status)) {
@@ -822,7 +898,7 @@ func execute(c Case) (o outcome) {
 			// execution are not trusted
 			o.Counts["note:timing-verdict-dropped-process-starved"]++
 		} else {
-			o.Liveness = fmt.Sprintf("%s (worst wake-up overshoot of the harness during the run: %v)", strings.Join(liveness, "; "), o.Starved.Round(time.Millisecond))
+			o.Liveness = fmt.Sprintf("%s (worst wake-up overshoot of the harness during the run: %v; %s)", strings.Join(liveness, "; "), o.Starved.Round(time.Millisecond), dispatcherTimeline(runStart))
 		}
 	}
 	return
@@ -860,7 +936,8 @@ func judge(c Case) (msg string, o outcome) {
 		if o2.Liveness == "" {
 			rec.Inconclusive()
 			rec.Class("timing-failure-not-reproduced")
-			fmt.Printf("C18 timing failure not reproduced (run %d held): %s\n", i+2, first)
+			b, _ := json.Marshal(c)
+			fmt.Printf("C18 timing failure not reproduced (run %d held): %s\ncase: %s\n", i+2, first, b)
 			return "", o
 		}
 	}
@@ -918,6 +995,19 @@ func TestReplay(t *testing.T) {
 		t.Fatal(err)
 	}
 	fmt.Println("REPLAYED structured")
+	if n, _ := strconv.Atoi(os.Getenv("VERIF_C18_SOAK")); n > 0 {
+		// development aid: how often does a single execution of this case fail?
+		fails := 0
+		for i := 0; i < n; i++ {
+			o := execute(c)
+			if o.Safety != "" || o.Liveness != "" {
+				fails++
+				fmt.Printf("soak %d: safety=%q liveness=%q\n", i, o.Safety, o.Liveness)
+			}
+		}
+		fmt.Printf("soak: %d of %d executions failed\n", fails, n)
+		return
+	}
 	msg, o := judge(c)
 	if o.Infra != "" {
 		t.Skipf("infrastructure: %s", o.Infra)
